@@ -45,14 +45,20 @@ def missed_values(h):
     """What the histogram recorded outside its bins, where it is a number (it changes type along with the bins)."""
     vals = [h.underflow, h.overflow, h.inner_missed] if hasattr(h, "underflow") else [h.missed]
     if not h.keep_missed and hasattr(h, "underflow"):
-        vals = [h.missed]
+        # the three counters cannot be read one by one while the tracking is off: only "nothing recorded" can be judged
+        try:
+            if float(h.missed) != 0:
+                return None
+        except Exception:
+            return None
+        vals = []
     out = []
     for v in vals:
         try:
-            v = float(v)
+            v = np.longdouble(v)  # (extended-precision contents have extended-precision counters: a fraction below 1e-16 is one)
         except Exception:
             continue
-        if not math.isnan(v):
+        if not np.isnan(v):
             out.append(v)
     return out
 
@@ -344,7 +350,11 @@ def one_history(ctx, index, rng: random.Random):
                             hn.errors2 = np.abs(np.asarray(hn.frequencies))  # keep the squared errors small: only the sign decides
                     target = rng.choice(["uint8", "uint16", "uint32", "uint64", "int16", "int32", "int64"])
                     src_dt = np.dtype(hn.dtype)
-                    ok = set_dtype_admissible(hn.frequencies, hn.errors2, src_dt, target, missed_values(hn))
+                    mv_ = missed_values(hn)
+                    if mv_ is None:
+                        rec.skip("C13.set_dtype", "untracked_counters")
+                        continue
+                    ok = set_dtype_admissible(hn.frequencies, hn.errors2, src_dt, target, mv_)
                     with attach.quiet():
                         s_before = snap.snapshot(hn)
                     raised = None
@@ -409,7 +419,11 @@ def one_history(ctx, index, rng: random.Random):
                             pass
                     with attach.quiet():
                         s_before = snap.snapshot(h)
-                    ok = set_dtype_admissible(h.frequencies, h.errors2, before_dtype, target, missed_values(h))
+                    mv_ = missed_values(h)
+                    if mv_ is None:
+                        rec.skip("C13.set_dtype", "untracked_counters")
+                        continue
+                    ok = set_dtype_admissible(h.frequencies, h.errors2, before_dtype, target, mv_)
                     raised = None
                     try:
                         if rng.random() < 0.5:
